@@ -750,7 +750,8 @@ func init() {
 	register(&vf.Check{
 		ID:        "C14",
 		Technique: "runtime monitor: harness nesting counter around every completion callback + byte-generator check of the results of operations deferred at the dispatch bound + IO.Dispatched inspected at top level, over long chains of immediately completable operations re-issued from their own callbacks",
-		Rule: "cases = chains of 100-2000 immediately completable operations, each started from the previous one's callback, hopping by PRNG between 1-5 sources from {TCP read with buffered data and 1-16 byte buffers, TCP write, FIFO read, FIFO write, regular-file read and write through Open, accept with a queued backlog, UDP AsyncReadFrom / AsyncWriteTo, multicast peer AsyncRead / AsyncWrite}; one datagram in six (or a run of 50) is empty, 1 in 12 socket/FIFO operations is zero-length; the chain continues through the deferred hop; afterwards each object is driven into a state where its operations fail inside the start call (accept under RLIMIT_NOFILE=3, read/write after RST, FIFO end gone, EMSGSIZE) and 1-90 of them are started, from top level or each from the callback of the previous one; the nesting depth is tracked per callback; " +
+		Rule: "multicast writes alternate between two destinations and every datagram must arrive where it was addressed; one hop in 150 calls PollOne() from inside the callback (the counter must be unchanged); a third of the TCP write sources carry a 2-6 MiB write before the chain; one more source: read-all of 32 bytes over queued 8-byte datagrams of a connected UDP socket; " +
+			"cases = chains of 100-2000 immediately completable operations, each started from the previous one's callback, hopping by PRNG between 1-5 sources from {TCP read with buffered data and 1-16 byte buffers, TCP write, FIFO read, FIFO write, regular-file read and write through Open, accept with a queued backlog, UDP AsyncReadFrom / AsyncWriteTo, multicast peer AsyncRead / AsyncWrite}; one datagram in six (or a run of 50) is empty, 1 in 12 socket/FIFO operations is zero-length; the chain continues through the deferred hop; afterwards each object is driven into a state where its operations fail inside the start call (accept under RLIMIT_NOFILE=3, read/write after RST, FIFO end gone, EMSGSIZE) and 1-90 of them are started, from top level or each from the callback of the previous one; the nesting depth is tracked per callback; " +
 			"non-trivial = the chain hit the dispatch bound at least once (a deferred hop); distinct = (mix of sources, number of deferred hops)",
 		Assumptions: []string{
 			"the multicast peer is exercised with unicast datagrams on 127.0.0.1 (its AsyncRead/AsyncWrite paths are the same)",
